@@ -94,3 +94,17 @@ Theorem c09_old_int_refuted :
   unmarshal_int_old KInt32 (b [50;49;52;55;52;56;51;54;52;56]) = -2147483648.
 Proof. exact old_int_refuted. Qed.
 Print Assumptions c09_old_int_refuted.
+
+(* message-valued elements (part wkt): what a verdict "no failure" of the executable statement means *)
+From GB Require Import Model.JsonRun Proofs.CheckerProofs.
+Theorem c09_wkt_text_statement : forall input impl,
+  as_Z (nthv 0 input) = 0 -> prop_c09_wkt input impl = None ->
+  is_panic (nthv 0 impl) = false /\ (is_acc (nthv 0 impl) = true -> is_acc (nthv 1 impl) = true -> nthv 0 impl = nthv 1 impl).
+Proof. exact c09_wkt_text_sound. Qed.
+Print Assumptions c09_wkt_text_statement.
+
+Theorem c09_wkt_value_statement : forall input impl,
+  as_Z (nthv 0 input) <> 0 -> prop_c09_wkt input impl = None ->
+  nthv 0 impl = nthv 2 impl /\ nthv 1 impl = nthv 2 impl.
+Proof. exact c09_wkt_value_sound. Qed.
+Print Assumptions c09_wkt_value_statement.
